@@ -766,6 +766,9 @@ class TT():
             result = TT(cores_new)
 
         elif isinstance(other, int) or isinstance(other, float) or isinstance(other, complex) or isinstance(other, np.number) or isinstance(other, tn.Tensor):
+            if tn.is_tensor(other) and tn.numel(other) != 1:
+                raise InvalidArguments(
+                    'Second operand must be of type: torchtt.TT, float, int, complex or torch.Tensor with one element.')
             if tn.is_tensor(other) or other != 0:
                 cores_new = [c+0 for c in self.cores]
                 cores_new[0] *= other
@@ -921,6 +924,9 @@ class TT():
             torchtt.TT: the result.
         """
         if isinstance(other, int) or isinstance(other, float) or isinstance(other, np.number) or tn.is_tensor(other):
+            if tn.is_tensor(other) and tn.numel(other) != 1:
+                raise InvalidArguments(
+                    'Operand not permitted. A TT-object can be divided only with scalars.')
             # divide by a scalar
             cores_new = self.cores.copy()
             cores_new[0] = cores_new[0] / other
